@@ -526,8 +526,11 @@ fn main() {
         if let Some(inst) = analyse(name, &log) {
             sizes.push(inst.jobs);
             let show = inst.coq.replacen("check_instance", "search_instance", 1);
+            // failing cases with handler actions that can panic (complete-now, hard rewrites) are searched first
+            let show_priority = inst.coq.matches("CompleteNow").count() * 4 + inst.coq.matches("Rewrite false").count();
             emit_case(id, if name.starts_with("generated") { "generated" } else { "corpus" }, inst.coq, Some(show), inst.dynamic_jobs > 0 || inst.jobs > 60,
-                format!("{name}"), json!({"source": name, "jobs": inst.jobs, "events": inst.events, "ordered_pairs": inst.pairs, "dynamic_jobs": inst.dynamic_jobs, "sample": inst.sample}));
+                format!("{name}"), json!({"source": name, "jobs": inst.jobs, "events": inst.events, "ordered_pairs": inst.pairs, "dynamic_jobs": inst.dynamic_jobs, "sample": inst.sample,
+                       "show_priority": show_priority}));
             id += 1;
         }
     }
